@@ -2,7 +2,7 @@
 # Branch-and-bound over bounding hierarchies (core-only, executable)
 
 A reusable model of "hierarchy with a bound per inner node, query skips a subtree when its
-bound does not admit the query / cannot beat the best answer so far".
+bound does not adm the query / cannot beat the best answer so far".
 
 Two tree shapes:
 
@@ -13,7 +13,7 @@ Two tree shapes:
 
 The searches are generic in the state `σ` (best-so-far, a counter, a list of hits, a flag):
 
-* `search admit step` — the general pruned left-to-right fold; `admit b s = false` skips the subtree;
+* `search adm step` — the general pruned left-to-right fold; `adm b s = false` skips the subtree;
 * `any`, `collect`, `count` — early-exit / state-independent prefilter variants;
 * `visited` — the trace of items actually evaluated (used only to tie the model to the code).
 
@@ -57,42 +57,42 @@ def width : Forest ι β → Nat
   | leaf _ r => width r + 1
   | node _ _ r => width r + 1
 
-/-- Pruned left-to-right fold: a subtree whose bound does not `admit` the current state is skipped. -/
-def search (admit : β → σ → Bool) (step : σ → ι → σ) : Forest ι β → σ → σ
+/-- Pruned left-to-right fold: a subtree whose bound does not `adm` the current state is skipped. -/
+def search (adm : β → σ → Bool) (step : σ → ι → σ) : Forest ι β → σ → σ
   | nil, s => s
-  | leaf i r, s => search admit step r (step s i)
-  | node b c r, s => search admit step r (if admit b s then search admit step c s else s)
+  | leaf i r, s => search adm step r (step s i)
+  | node b c r, s => search adm step r (if adm b s then search adm step c s else s)
 
 /-- The items `search` actually evaluates, in order (trace; the state is threaded the same way). -/
-def visited (admit : β → σ → Bool) (step : σ → ι → σ) : Forest ι β → σ → List ι × σ
+def visited (adm : β → σ → Bool) (step : σ → ι → σ) : Forest ι β → σ → List ι × σ
   | nil, s => ([], s)
   | leaf i r, s =>
-      let (v, s') := visited admit step r (step s i)
+      let (v, s') := visited adm step r (step s i)
       (i :: v, s')
   | node b c r, s =>
-      if admit b s then
-        let (v1, s1) := visited admit step c s
-        let (v2, s2) := visited admit step r s1
+      if adm b s then
+        let (v1, s1) := visited adm step c s
+        let (v2, s2) := visited adm step r s1
         (v1 ++ v2, s2)
-      else visited admit step r s
+      else visited adm step r s
 
 /-- Early-exit existential query with a state-independent prefilter (`SphereCollision`, …). -/
-def any (admit : β → Bool) (p : ι → Bool) : Forest ι β → Bool
+def any (adm : β → Bool) (p : ι → Bool) : Forest ι β → Bool
   | nil => false
-  | leaf i r => p i || any admit p r
-  | node b c r => (admit b && any admit p c) || any admit p r
+  | leaf i r => p i || any adm p r
+  | node b c r => (adm b && any adm p c) || any adm p r
 
 /-- Collect all answers with a state-independent prefilter (`RayCollisions`, `TriangleCollisions`). -/
-def collect (admit : β → Bool) (f : ι → List γ) : Forest ι β → List γ
+def collect (adm : β → Bool) (f : ι → List γ) : Forest ι β → List γ
   | nil => []
-  | leaf i r => f i ++ collect admit f r
-  | node b c r => (if admit b then collect admit f c else []) ++ collect admit f r
+  | leaf i r => f i ++ collect adm f r
+  | node b c r => (if adm b then collect adm f c else []) ++ collect adm f r
 
 /-- Count answers with a state-independent prefilter (the `int` returned by `RayCollisions`). -/
-def count (admit : β → Bool) (f : ι → Nat) : Forest ι β → Nat
+def count (adm : β → Bool) (f : ι → Nat) : Forest ι β → Nat
   | nil => 0
-  | leaf i r => f i + count admit f r
-  | node b c r => (if admit b then count admit f c else 0) + count admit f r
+  | leaf i r => f i + count adm f r
+  | node b c r => (if adm b then count adm f c else 0) + count adm f r
 
 /-- Keep the better of the running answer `s` and a new candidate (candidate wins only when
 strictly `better`): `if !found || c.Scale < coll.Scale { coll = c }`. -/
@@ -102,14 +102,14 @@ def merge (better : γ → γ → Bool) : Option γ → Option γ → Option γ
   | some c, some h => if better h c then some h else some c
 
 /-- "Closest of the children": every node computes the best answer of its own children from
-scratch (`none` if its bound does not admit the query) and the parent keeps the better one with
+scratch (`none` if its bound does not adm the query) and the parent keeps the better one with
 `better` — the shape of `JoinedCollider.FirstRayCollision` and `JoinedObject.Cast`. -/
-def best (admit : β → Bool) (f : ι → Option γ) (better : γ → γ → Bool) :
+def best (adm : β → Bool) (f : ι → Option γ) (better : γ → γ → Bool) :
     Forest ι β → Option γ → Option γ
   | nil, s => s
-  | leaf i r, s => best admit f better r (merge better s (f i))
+  | leaf i r, s => best adm f better r (merge better s (f i))
   | node b c r, s =>
-      best admit f better r (merge better s (if admit b then best admit f better c none else none))
+      best adm f better r (merge better s (if adm b then best adm f better c none else none))
 
 /-- Every bound covers every item below it. -/
 def Sound (covers : β → ι → Prop) : Forest ι β → Prop
@@ -132,14 +132,14 @@ def toForest : BTree ι β → Forest ι β
   | node b l r => .node b (Forest.append (toForest l) (toForest r)) .nil
 
 /-- Pruned search on the binary tree, written directly. -/
-def search (admit : β → σ → Bool) (step : σ → ι → σ) : BTree ι β → σ → σ
+def search (adm : β → σ → Bool) (step : σ → ι → σ) : BTree ι β → σ → σ
   | leaf i, s => step s i
-  | node b l r, s => if admit b s then search admit step r (search admit step l s) else s
+  | node b l r, s => if adm b s then search adm step r (search adm step l s) else s
 
 /-- Early-exit existential query. -/
-def any (admit : β → Bool) (p : ι → Bool) : BTree ι β → Bool
+def any (adm : β → Bool) (p : ι → Bool) : BTree ι β → Bool
   | leaf i => p i
-  | node b l r => admit b && (any admit p l || any admit p r)
+  | node b l r => adm b && (any adm p l || any adm p r)
 
 def Sound (covers : β → ι → Prop) : BTree ι β → Prop
   | leaf _ => True
